@@ -8,8 +8,11 @@ Tie to the source:
       _load_or_run, _pickle_load, the Cache defaults, and the wiring of the cache through
       parallelise and the four scan functions.  PropsC19.v pins them against
       coq/cachefs/ExpectedFacts.v (hand-maintained switch: which name function the tree is expected
-      to carry -- NameStr = the snapshot with the recorded finding C19-name-collision, NameRepr =
-      after fixes/C19-name-fn.diff; tools/c19_switch.py);
+      to carry -- NameStr = history, before fixes/C19-name-fn.diff (/repo 212c2b0); NameRepr = the
+      tree now = snapshot with the recorded finding C19-slash-in-key; NameReprEsc = after
+      fixes/C19-slash-in-key.diff; tools/c19_switch.py slash snapshot|repaired <commit>); plus the shape of
+      the Cache dataclass (no state of its own) and the name _load_or_run hands to save_fn
+      (gen_cache_object / gen_save_name, pinned by C19_object_facts_pinned);
   (2) correspondence by FAULT INJECTION on the real code: harness/c19_driver.py (its own
       interpreter, one forked child per run) kills a caching run at every instant at which the
       directory can differ -- before/after every open/close/replace and after every byte of a
@@ -21,7 +24,18 @@ Tie to the source:
       the implementation uses for every key is compared with the Gallina model of str()/repr();
   (3) an independent oracle judges the PROPERTY on the implementation: cached == uncached ==
       own evaluation of the function, second run makes no call and writes nothing, every rerun
-      after every kill returns the uncached results for every key (then again without calls).
+      after every kill returns the uncached results for every key (then again without calls);
+  (4) SESSIONS: several runs in one process with ONE Cache object (sequential then parallel, parallel
+      then parallel, growing / overlapping key sets): every run returns the uncached results and evaluates
+      fn exactly on the keys whose files are not yet on disk (oracle), and the whole session is compared
+      with the small-step model, which has no object state (facts: shape of the Cache dataclass);
+  (5) CUSTOM (name_fn, save_fn, load_fn) triples, also name-sensitive ones (format chosen from the suffix;
+      pandas to_pickle/read_pickle on *.pkl.gz; a writer that stamps / records the name it was handed):
+      transparency, repetition from disk, and "save_fn is handed exactly the name load_fn gets later"
+      (fact: which name _load_or_run hands to save_fn);
+  (6) keys whose repr contains a path separator / '%' / '..' / NUL (second switch value of ExpectedFacts.v:
+      NameRepr = snapshot with the recorded finding C19-slash-in-key, NameReprEsc = after
+      fixes/C19-slash-in-key.diff).
 """
 
 from __future__ import annotations
@@ -53,7 +67,16 @@ _NAME_KINDS = {
     "return f'{k}.p'": "NameStr",
     "return f'{k!r}.p'": "NameRepr",
     "return f'{hash(k)}.p'": "NameHash",
+    "name = repr(k).replace('%', '%25').replace('/', '%2F')\nreturn f'{name}.p'": "NameReprEsc",
 }
+
+# _load_or_run as seeded/C19-6 wrote it: save_fn is handed a temporary name, the file is renamed afterwards
+_LOAD_OR_RUN_TEMP = (
+    "k, v = inp\nif cache is None:\n    res = fn(v)\nelse:\n    file = cache.tmp_dir / cache.name_fn(k)\n"
+    "    if file.exists():\n        return (k, cast(Tout, cache.load_fn(file)))\n    res = fn(v)\n"
+    "    tmp = file.with_name(f'{file.name}.{os.getpid()}.tmp')\n    cache.save_fn(tmp, res)\n    os.replace(tmp, file)\nreturn (k, res)"
+)
+_CACHE_FIELDS = ["tmp_dir", "name_fn", "load_fn", "save_fn"]
 
 _SHAPES = {
     "_pickle_load": "with file.open('rb') as fp:\n    return pickle.load(fp)",
@@ -149,7 +172,8 @@ def _classify_save(fn: ast.FunctionDef | None) -> str:
 
 
 def extract_facts() -> dict[str, Any]:
-    facts: dict[str, Any] = {"save": "SaveUnknown", "load_or_run": False, "wiring": False, "name": "NameUnknown", "why": []}
+    facts: dict[str, Any] = {"save": "SaveUnknown", "load_or_run": False, "wiring": False, "name": "NameUnknown",
+                             "object": "CoUnknown", "save_name": "SnUnknown", "why": []}
     try:
         tree = ast.parse((common.REPO / "src/mxlpy/parallel.py").read_text())
         scan = ast.parse((common.REPO / "src/mxlpy/scan.py").read_text())
@@ -182,6 +206,25 @@ def extract_facts() -> dict[str, Any]:
         ok = False
         facts["why"].append("Cache defaults changed")
     facts["load_or_run"] = ok
+    # which name _load_or_run hands to save_fn (the final one, the very path load_fn gets / a temporary one)
+    lor = _norm(fns["_load_or_run"]) if "_load_or_run" in fns else ""
+    facts["save_name"] = "SnFinal" if lor == _SHAPES["_load_or_run"] else "SnTemp" if lor == _LOAD_OR_RUN_TEMP else "SnUnknown"
+    if facts["save_name"] != "SnFinal":
+        facts["why"].append("_load_or_run does not hand `file` itself to cache.save_fn")
+    # does a Cache object carry state from run to run?  Stateless: the dataclass has exactly the four documented
+    # fields and no methods, and _load_or_run asks the directory (file.exists())
+    if cache_cls is not None:
+        body = [s for s in cache_cls.body if not (isinstance(s, ast.Expr) and isinstance(s.value, ast.Constant))]
+        fields = [s.target.id for s in body if isinstance(s, ast.AnnAssign) and isinstance(s.target, ast.Name)]
+        methods = [s.name for s in body if isinstance(s, (ast.FunctionDef, ast.AsyncFunctionDef))]
+        others = [s for s in body if not isinstance(s, (ast.AnnAssign, ast.FunctionDef, ast.AsyncFunctionDef))]
+        decos = [ast.unparse(d) for d in cache_cls.decorator_list]
+        if fields == _CACHE_FIELDS and not methods and not others and decos == ["dataclass"] and not cache_cls.bases and "file.exists()" in lor:
+            facts["object"] = "CoStateless"
+        elif fields == [*_CACHE_FIELDS, "_stored"] and sorted(methods) == ["_has", "_store"] and "cache._has(" in lor:
+            facts["object"] = "CoListingMemo"  # seeded/C19-5
+    if facts["object"] != "CoStateless":
+        facts["why"].append("the Cache class is not the plain four-field dataclass / _load_or_run does not ask the directory")
     # wiring of parallelise
     w = True
     par = fns.get("parallelise")
@@ -224,12 +267,13 @@ def extract_facts() -> dict[str, Any]:
 
 def expected_name_kind() -> str:
     """the hand-maintained switch coq/cachefs/ExpectedFacts.v: which default name function the tree is
-    expected to carry (NameStr: snapshot with the recorded finding; NameRepr: after fixes/C19-name-fn.diff)"""
+    expected to carry (NameStr: before fixes/C19-name-fn.diff; NameRepr: the tree now, snapshot of the finding
+    C19-slash-in-key; NameReprEsc: after fixes/C19-slash-in-key.diff)"""
     import re
 
     txt = (common.area_dir(AREA) / "ExpectedFacts.v").read_text()
     m = re.search(r"Definition\s+C19_expected_name\s*:\s*name_kind\s*:=\s*(\w+)\s*\.", txt)
-    if not m or m.group(1) not in ("NameStr", "NameRepr"):
+    if not m or m.group(1) not in ("NameStr", "NameRepr", "NameReprEsc"):
         raise RuntimeError("coq/cachefs/ExpectedFacts.v: cannot read C19_expected_name")
     return m.group(1)
 
@@ -240,9 +284,11 @@ def gen() -> dict[str, Any]:
     text = (
         "(* REGENERATED from src/mxlpy/parallel.py (_pickle_save, _load_or_run, _pickle_load, _pickle_name, Cache,\n"
         "   parallelise) and src/mxlpy/scan.py by harness/c19.py; do not edit.  An unrecognised shape yields\n"
-        "   SaveUnknown / false / NameUnknown, which breaks C19_facts_pinned. *)\n"
-        "From CacheFS Require Import CacheKeys CacheFS.\n"
+        "   SaveUnknown / false / NameUnknown / CoUnknown / SnUnknown, which breaks C19_facts_pinned / C19_object_facts_pinned. *)\n"
+        "From CacheFS Require Import CacheKeys CacheFS CacheCodec CacheObject.\n"
         f"Definition gen_cache_facts : cache_facts := mkCacheFacts {f['save']} {common.cbool(f['load_or_run'])} {common.cbool(f['wiring'])} {f['name']}.\n"
+        f"Definition gen_cache_object : cache_object_kind := {f['object']}.\n"
+        f"Definition gen_save_name : save_name_kind := {f['save_name']}.\n"
     )
     common.write_if_changed(common.area_dir(AREA) / "GenCacheFacts.v", text)
     return f
@@ -343,6 +389,8 @@ NAME_MODE = ["NameStr"]  # set by check()/replay() from ExpectedFacts.v
 
 def final_name(k: dict) -> str:
     """what the documented default name_fn produces (own implementation, by the expected kind)"""
+    if NAME_MODE[0] == "NameReprEsc":
+        return "".join({"%": "%25", "/": "%2F"}.get(c, c) for c in repr(key_py(k))) + ".p"
     return f"{key_py(k)!r}.p" if NAME_MODE[0] == "NameRepr" else f"{key_py(k)}.p"
 
 
@@ -828,6 +876,261 @@ def collision_reproduces(reps: list[dict]) -> tuple[bool, str]:
     return u != f, f"uncached={u} cached={f}"
 
 
+
+# ---------------------------------------------------------------------------------------
+# keys whose printed form needs care as a FILE NAME (path separator, percent sign, dots, NUL)
+# ---------------------------------------------------------------------------------------
+
+_sk = lambda v: {"t": "str", "v": v}  # noqa: E731
+_ik = lambda v: {"t": "int", "v": v}  # noqa: E731
+# no '/' in the printed key: must work under both name functions
+SPECIAL_CFG = {"name": "P-special-seq", "kind": "map", "fn": "affine", "parallel": False, "points": "few",
+               "items": [[_sk(".."), 1], [_sk("."), 2], [_sk("a%b"), 3], [_sk("a%2Fb"), 4], [_sk("nul\x00byte"), 5], [_sk(""), 6],
+                         [{"t": "tuple", "v": [_sk(".."), _ik(0)]}, 7], [_sk("back\\slash"), 8]]}
+# a path separator in the printed key: the finding C19-slash-in-key while ExpectedFacts.v says NameRepr
+SLASH_CFG = {"name": "P-slash-seq", "kind": "map", "fn": "sq", "parallel": False, "points": "few",
+             "items": [[_sk("ATP/ADP"), 2], [{"t": "tuple", "v": [_sk("x/y"), _ik(1)]}, 3], [_sk("/abs"), 4], [_sk("../up"), 5], [_sk("ATP%2FADP"), 6], [_sk("ATP_ADP"), 7], [_sk("ATPADP"), 8]]}
+SLASH_FID = "C19-slash-in-key"
+
+
+def slash_reproduces(reps: list[dict]) -> tuple[bool, str]:
+    unc, fresh = reps[0], reps[1]
+    ur, fr = unc.get("result") or {}, fresh.get("result") or {}
+    bad = ur.get("status") == "returned" and (fr.get("status") != "returned" or fr.get("value") != ur.get("value"))
+    return bad, f"uncached run returned {len(ur.get('value') or [])} results; cached run over a fresh directory: {fr.get('status')} {fr.get('exc', '')} {fr.get('msg', '')[:120]}"
+
+
+# ---------------------------------------------------------------------------------------
+# SESSIONS: several runs in one process with ONE Cache object
+# ---------------------------------------------------------------------------------------
+
+
+def make_sessions(rng, thorough: bool) -> list[dict]:
+    """a session = fn + runs [(items, parallel)] over one key universe (one input per key, pairwise different inputs)"""
+    def items_of(keys: list[dict], base: int) -> list[list]:
+        return [[k, base + i] for i, k in enumerate(keys)]
+
+    ints = items_of([_ik(i) for i in range(6)], 2)
+    A, B = ints[:4], ints[4:]
+    mixed = items_of([_sk("a"), {"t": "tuple", "v": [_ik(1), _sk("u")]}, {"t": "float", "v": 2.5}, _ik(-1), _sk("1"), _ik(1)], 3)
+    M1, M2, M3 = mixed[:3], mixed[2:5], mixed[5:]
+    run = lambda items, par, w=2: {"items": items, "parallel": par, "workers": w}  # noqa: E731
+    out = [
+        # the same object for two parallel runs, then a grown key set (the notebook use of seeded/C19-5)
+        {"name": "S-par-par-grow", "fn": "sq", "runs": [run(A, True), run(A, True), run(A + B, True, 3)]},
+        {"name": "S-seq-par-par", "fn": "affine", "runs": [run(A, False), run(A + B, True), run(A + B, True)]},
+        {"name": "S-par-seq-overlap", "fn": "dict", "runs": [run(M1, True), run(M2, False), run(M1 + M3, True), run(M3 + M2, True, 1)]},
+        {"name": "S-seq-seq-grow", "fn": "tup", "runs": [run(B, False), run(B + A, False), run(A, False)]},
+    ]
+    for r in range(6 if thorough else 1):
+        keys = gen_keyset(rng, rng.randint(3, 7))
+        univ = items_of(keys, rng.randint(0, 20))
+        runs = []
+        for _ in range(rng.randint(2, 4)):
+            sub = [it for it in univ if rng.random() < 0.6] or [univ[0]]
+            rng.shuffle(sub)
+            runs.append(run(sub, rng.random() < 0.6, rng.randint(1, 3)))
+        out.append({"name": f"S-rand{r}", "fn": rng.choice(["sq", "affine", "tup", "dict", "text"]), "runs": runs})
+    return out
+
+
+def session_group(sess: dict, root: Path, gi: int) -> list[dict]:
+    d = root / f"sess-{gi}"
+    base = {"kind": "session", "fn": sess["fn"], "runs": sess["runs"], "timeout": 180,
+            "parallel": any(r["parallel"] for r in sess["runs"])}
+    return [
+        {**base, "id": "unc", "cache_dir": str(d / "cache-unused"), "side": str(d / "unc"), "use_cache": False},
+        {**base, "id": "session", "cache_dir": str(d / "cache"), "side": str(d / "session")},
+    ]
+
+
+def judge_session(sess: dict, reps: list[dict]) -> tuple[str | None, list[dict] | None]:
+    """oracle on one session -> (what is wrong | None, per-run reports of the cached session)"""
+    unc, cached = reps
+    for nm, rep in (("uncached", unc), ("cached", cached)):
+        r = rep.get("result")
+        if r is None or r.get("status") != "returned" or not isinstance(r.get("value"), list) or len(r["value"]) != len(sess["runs"]):
+            return f"{nm} session did not finish: exit={rep.get('exit')} result={json.dumps(r)[:200]}", None
+    fn = ORACLE_FNS[sess["fn"]]
+    seen: dict[str, int] = {}
+    for i, (run, u, c) in enumerate(zip(sess["runs"], unc["result"]["value"], cached["result"]["value"])):
+        mode = "parallel" if run["parallel"] else "sequential"
+        want = [[k, o_canon(fn(x))] for k, x in run["items"]]
+        if u.get("status") != "returned":
+            return f"run #{i} WITHOUT cache raised {u.get('exc')}", None
+        if c.get("status") != "returned":
+            return f"run #{i} ({mode}) of the session raised {c.get('exc')}: {c.get('msg')}", cached["result"]["value"]
+        if c["value"] != u["value"]:
+            return f"run #{i} ({mode}) of the session returned results that differ from the run without cache", cached["result"]["value"]
+        if u["value"] != want:
+            return None, None  # not C19's business (reference = the uncached run); no verdict on this session
+        new = [(final_name(k), x) for k, x in run["items"] if final_name(k) not in seen]
+        if sorted(c["calls"]) != sorted(str(x) for _n, x in new):
+            on_disk = len(run["items"]) - len(new)
+            return (f"run #{i} ({mode}, same Cache object as the earlier runs) evaluated fn on inputs {sorted(c['calls'])}; {on_disk} of its {len(run['items'])} results "
+                    f"were on disk, expected evaluations: {sorted(str(x) for _n, x in new)}"), cached["result"]["value"]
+        for n, x in new:
+            seen[n] = x
+        files = c["files"] if not c["files"].get("<no-dir>") else {}
+        if sorted(files) != sorted(seen):
+            return f"after run #{i} the directory holds {sorted(files)}, expected exactly {sorted(seen)}", cached["result"]["value"]
+        for n, x in seen.items():
+            ent = files[n]
+            if "hex" not in ent or bytes.fromhex(ent["hex"]) != pickle.dumps(fn(x)):
+                return f"after run #{i} the file {n!r} does not hold the pickled result", cached["result"]["value"]
+    return None, cached["result"]["value"]
+
+
+def coq_scase(sess: dict, runs_rep: list[dict]) -> str:
+    """the session for the small-step model: one stage per run, each over its own pairs, one directory"""
+    fn = ORACLE_FNS[sess["fn"]]
+    univ: dict[str, tuple[int, int]] = {}  # key json -> (key id, x)
+    name_ids: dict[str, int] = {}
+    for run in sess["runs"]:
+        for k, x in run["items"]:
+            kj = json.dumps(k, sort_keys=True)
+            univ.setdefault(kj, (len(univ) + 1, x))
+            name_ids.setdefault(final_name(k), len(name_ids) + 1)
+    key_name = {json.dumps(k, sort_keys=True): final_name(k) for run in sess["runs"] for k, _ in run["items"]}
+    vals: dict[str, int] = {}
+    fns_t, sizes_t = {}, {}
+    for kj, (_kid, x) in univ.items():
+        v = json.dumps(o_canon(fn(x)), sort_keys=True)
+        vid = vals.setdefault(v, len(vals) + 1)
+        fns_t[x] = vid
+        sizes_t[vid] = len(pickle.dumps(fn(x)))
+    names = clist(f"({cn(kid)}, {cn(name_ids[key_name[kj]])})" for kj, (kid, _x) in univ.items())
+    fns = clist(f"({cn(x)}, {cz(v)})" for x, v in sorted(fns_t.items()))
+    sizes = clist(f"({cz(v)}, {cnat(s)})" for v, s in sorted(sizes_t.items()))
+    stages = []
+    for pid, (run, rep) in enumerate(zip(sess["runs"], runs_rep), start=1):
+        items = clist(f"({cn(univ[json.dumps(k, sort_keys=True)][0])}, {cn(x)})" for k, x in run["items"])
+        if rep.get("status") == "returned" and [kv[0] for kv in rep["value"]] == [k for k, _ in run["items"]]:
+            outc = "(Returned " + clist(
+                f"({cn(univ[json.dumps(k, sort_keys=True)][0])}, {cz(vals.get(json.dumps(v, sort_keys=True), -1))})" for k, v in rep["value"]) + ")"
+        else:
+            outc = "Raises" if rep.get("status") == "raised" else "(Returned [(0%N, (-3)%Z)])"
+        files = rep.get("files") or {}
+        finals = []
+        for k, x in run["items"]:
+            ent = files.get(final_name(k))
+            if isinstance(ent, dict) and "hex" in ent:
+                b = bytes.fromhex(ent["hex"])
+                own = pickle.dumps(fn(x))
+                finals.append((fns_t[x] if own[: len(b)] == b else -1, ent["len"]))
+            else:
+                finals.append(None if ent is None else (-1, ent.get("len", 0)))
+        none_row = clist("None" for _ in run["items"])
+        obs = (f"mkObs true {outc} {cn(len(rep.get('calls', [])))} {clist(map(c_oc, finals))} "
+               f"{clist(none_row for _ in range(pid))}")
+        stages.append(f"({items}, {'RPar' if run['parallel'] else 'RSeq None'}, false, {obs})")
+    return f"({names}, {fns}, {sizes}, {clist(stages)})"
+
+
+def scorr_file(cases: list[str]) -> str:
+    return (
+        "From MxlBase Require Import ListX.\nFrom CacheFS Require Import CacheFS GenCacheFacts CacheFSRun.\n"
+        "Definition cases : list scase := [\n  " + ";\n  ".join(cases) + "\n].\n"
+        "Definition mismatches := filter_idx (fun c => negb (scase_ok (cf_save gen_cache_facts) c)) cases.\n"
+        "Eval vm_compute in mismatches.\n"
+    )
+
+
+# ---------------------------------------------------------------------------------------
+# CUSTOM (name_fn, save_fn, load_fn) triples
+# ---------------------------------------------------------------------------------------
+
+CODEC_NAMES = {  # own implementation of the name functions of harness/c19_driver.py::CODECS
+    "gz-suffix": lambda k: f"{k!r}.pkl.gz",
+    "plain-suffix": lambda k: f"{k!r}.pkl",
+    "pandas-gz": lambda k: f"{k!r}.pkl.gz",
+    "recording": lambda k: f"r_{k!r}.rec",
+    "stamped": lambda k: f"{k!r}.stamped",
+}
+
+
+def make_codec_cfgs(rng, thorough: bool) -> list[dict]:
+    ints = [[_ik(i), i + 2] for i in range(4)]
+    mixed = [[_sk("a"), 5], [{"t": "tuple", "v": [_ik(1), _sk("u")]}, 6], [{"t": "float", "v": 2.5}, 7], [_ik(-2), 8]]
+    cfgs = [
+        {"name": "X-gz-suffix-seq", "kind": "map", "fn": "dict", "items": mixed, "parallel": False, "codec": "gz-suffix"},
+        {"name": "X-pandas-gz-pool", "kind": "map", "fn": "frame", "items": ints, "parallel": True, "workers": 2, "codec": "pandas-gz"},
+        {"name": "X-recording-pool", "kind": "map", "fn": "sq", "items": mixed, "parallel": True, "workers": 2, "codec": "recording"},
+        {"name": "X-stamped-seq", "kind": "map", "fn": "tup", "items": ints, "parallel": False, "codec": "stamped"},
+        {"name": "X-plain-suffix-seq", "kind": "map", "fn": "text", "items": ints[:2], "parallel": False, "codec": "plain-suffix"},
+    ]
+    if thorough:
+        for r in range(4):
+            keys = gen_keyset(rng, rng.randint(1, 5))
+            codec = rng.choice(["gz-suffix", "recording", "stamped", "plain-suffix"])
+            par = rng.random() < 0.5
+            cfgs.append({"name": f"X-rand{r}-{codec}-{'pool' if par else 'seq'}", "kind": "map", "fn": rng.choice(["sq", "affine", "tup", "dict", "text"]),
+                         "items": [[k, rng.randint(0, 40)] for k in keys], "parallel": par, "workers": rng.randint(1, 3), "codec": codec})
+    return cfgs
+
+
+def codec_group(cfg: dict, root: Path, gi: int) -> list[dict]:
+    d = root / f"codec-{gi}"
+    kw = {"codec": cfg["codec"]}
+    return [
+        scenario(cfg, "unc", d / "cache-unused", d, use_cache=False),
+        scenario(cfg, "fresh", d / "cache", d, **kw),
+        scenario(cfg, "second", d / "cache", d, **kw),
+        scenario(cfg, "second-other", d / "cache", d, parallel=not cfg.get("parallel"), **kw),
+    ]
+
+
+def judge_codec(cfg: dict, reps: list[dict], cache_dir: str) -> tuple[str | None, list[str]]:
+    """oracle on a custom triple -> (what is wrong | None, per save event which name save_fn was handed)"""
+    unc, fresh = reps[0], reps[1]
+    ur = unc.get("result") or {}
+    if ur.get("status") != "returned":
+        return None, []  # no reference
+    name_fn = CODEC_NAMES[cfg["codec"]]
+    names = [name_fn(key_py(k)) for k, _ in cfg["items"]]
+    observed: list[str] = []
+    for rep in reps[1:]:
+        r = rep.get("result")
+        what = {"fresh": "cached run over a fresh directory", "second": "repeated run", "second-other": "repeated run in the other execution mode",
+                "second-newproc": "repeated run in a new interpreter"}.get(rep["id"], rep["id"])
+        if r is None or r.get("status") != "returned":
+            return f"{what} with the custom triple {cfg['codec']!r} raised {(r or {}).get('exc')}: {(r or {}).get('msg')}", observed
+        if r["value"] != ur["value"]:
+            return f"{what} with the custom triple {cfg['codec']!r} returned results that differ from the uncached run", observed
+        saved_before = {e["name"] for rp in reps[1:] for e in rp.get("rec", []) if e["op"] == "save"}
+        for e in rep.get("rec", []):
+            if e["op"] == "save":
+                kind = "SnFinal" if e["name"] in names else "SnTemp" if any(e["name"].startswith(n + ".") for n in names) else "SnUnknown"
+                observed.append(kind)
+                if kind != "SnFinal" or os.path.realpath(e["dir"]) != os.path.realpath(cache_dir):
+                    return (f"{what}: save_fn was handed the name {e['name']!r} in {e['dir']!r}; load_fn is later handed "
+                            f"tmp_dir / name_fn(key) (one of {names[:3]}...)"), observed
+            elif e["name"] not in saved_before:
+                return f"{what}: load_fn was handed the name {e['name']!r}, which no save_fn call was handed", observed
+        if rep["id"] == "fresh":
+            if len(rep["calls"]) != len(names):
+                return f"fresh run with the custom triple made {len(rep['calls'])} evaluations for {len(names)} keys", observed
+            files = rep["files"] if not rep["files"].get("<no-dir>") else {}
+            if sorted(files) != sorted(names):
+                return f"after the fresh run the directory holds {sorted(files)}, expected exactly the names name_fn gives: {sorted(names)}", observed
+        else:
+            wrote = [e for e in rep["events"] if e["kind"] != "mkdir"]
+            if rep["calls"] or wrote or rep["files"] != fresh["files"]:
+                return f"{what} with the custom triple recomputed {len(rep['calls'])} result(s) / touched the directory ({len(wrote)} write events)", observed
+            if cfg["codec"] == "recording" and sorted(e["name"] for e in rep.get("rec", []) if e["op"] == "load") != sorted(names):
+                return f"{what}: load_fn was not handed exactly the names save_fn had been handed", observed
+    return None, observed
+
+
+def codec_corr_file(observed: list[str]) -> str:
+    return (
+        "From Coq Require Import List.\nImport ListNotations.\nFrom MxlBase Require Import ListX.\n"
+        "From CacheFS Require Import CacheCodec GenCacheFacts CacheFSRun.\n"
+        "Definition handed_names : list save_name_kind := [" + "; ".join(observed) + "].\n"
+        "Definition mismatches := filter_idx (fun k => negb (save_name_eqb k gen_save_name)) handed_names.\n"
+        "Eval vm_compute in mismatches.\n"
+    )
+
 # ---------------------------------------------------------------------------------------
 # the check
 # ---------------------------------------------------------------------------------------
@@ -845,8 +1148,13 @@ def check(run: Run) -> None:
         "pickles), by os._exit of the process (sequential), of one pool worker, or SIGKILL of the whole process group; then rerun "
         "(sequential or pool) and rerun again; chains kill the rerun too; every event boundary again with file objects that buffer "
         "until close(); a repeated run in a new interpreter with another hash salt.  Keys with quotes/backslashes/control characters, "
-        "nested tuples, None, bool, floats exercise the name function.  A case is one kill-then-rerun group; non-trivial iff the "
-        "kill really happened mid-run"
+        "nested tuples, None, bool, floats, '..', '.', '', NUL, '%' exercise the name function (keys with '/': witness of the recorded finding "
+        "or, after the repair, one more kill-point configuration).  SESSIONS: 2-4 runs in one process with ONE Cache object (parallel-parallel-grown, "
+        "sequential-parallel-parallel, overlapping key sets, random sub-lists of a random key universe), every run judged against the uncached run and "
+        "against 'evaluations = keys not yet on disk', the whole session compared with the small-step model.  CUSTOM TRIPLES: suffix-dependent format, "
+        "pandas to_pickle/read_pickle on *.pkl.gz, a recording and a name-stamping writer, sequential / pool / other mode / new interpreter.  A case is one "
+        "kill-then-rerun group, one session or one custom-triple group; a kill group is non-trivial iff the kill really happened mid-run, a session iff it "
+        "has at least two runs"
     )
     proofs_ok = run.check_proofs(AREA, PROPS)
     run.assumptions += [
@@ -868,6 +1176,15 @@ def check(run: Run) -> None:
          if facts["expected_name"] == "NameStr" else
          "ExpectedFacts.v = NameRepr: C19_transparent (no guard on names) applies to the tree; the old f'{k}.p' collision is the regression theorem C19_str_names_collide_refuted"),
         "fault-injection driver harness/c19_driver.py (wrappers around io.open/os.replace/...), correspondence glue CacheFSRun.v, literal printer, coqc output parser",
+        "Cache object: modelled WITHOUT state (the small-step model's only input besides the pairs is the directory); tie: fact gen_cache_object (the dataclass has exactly "
+        "tmp_dir/name_fn/load_fn/save_fn, no methods, _load_or_run asks file.exists()) + multi-run sessions with one object compared with the model; the memoising object of "
+        "C19_listing_memo_refuted is a separate big-step model on file names",
+        "custom (name_fn, save_fn, load_fn) triples: big-step model (CacheCodec.v: content written/read as a function of the file NAME handed over), complete runs in parallel=False "
+        "order, hypothesis = round trip on one name; no kill points for custom save functions (their atomicity is the user's business); tie: fact gen_save_name + recorded names",
+        ("ExpectedFacts.v = NameRepr: a key whose repr contains '/' cannot be cached (recorded finding C19-slash-in-key, fixes/C19-slash-in-key.diff proposed); every other key is covered"
+         if facts["expected_name"] == "NameRepr" else
+         "ExpectedFacts.v = " + facts["expected_name"]),
+        "file-system limits on a name other than the path separator (more than 255 bytes: ENAMETOOLONG) are outside the model",
     ]
 
     rng = common.rng_for(run.seed, "c19")
@@ -881,14 +1198,29 @@ def check(run: Run) -> None:
 
 def _check_body(run: Run, rng, root: Path, thorough: bool, n_drivers: int, proofs_ok: bool) -> None:
     cfgs = make_configs(rng, thorough)
-    repaired = NAME_MODE[0] == "NameRepr"
+    repaired = NAME_MODE[0] in ("NameRepr", "NameReprEsc")
+    slash_repaired = NAME_MODE[0] == "NameReprEsc"
     if repaired:
         # with the repaired names the witness of the former finding is an ordinary configuration: every point
         cfgs.append({**COLLISION_CFG, "points": "all"})
+    cfgs.append(SPECIAL_CFG)
+    if slash_repaired:
+        # with percent-encoded names the keys with a path separator are an ordinary configuration
+        cfgs.append(SLASH_CFG)
     known = {f["id"]: f for f in common.load_known_findings(PROP)}
+    # own random streams: the new stages leave the kill-point selection of the older ones as it was
+    sessions = make_sessions(common.rng_for(run.seed, "c19-sessions"), thorough)
+    codec_cfgs = make_codec_cfgs(common.rng_for(run.seed, "c19-codecs"), thorough)
     # ---- phase 1: transparency + second run, and the event structure of a clean run ----------
     p1 = [phase1_group(c, root, i) for i, c in enumerate(cfgs)] + [phase1_group(COLLISION_CFG, root, 999)]
-    p1_reps = run_groups(p1, root, "p1", n_drivers)
+    n_p1 = len(p1)
+    extra = ([session_group(s, root, i) for i, s in enumerate(sessions)] + [codec_group(c, root, i) for i, c in enumerate(codec_cfgs)]
+             + [phase1_group(SLASH_CFG, root, 998)])
+    all_reps = run_groups(p1 + extra, root, "p1", n_drivers)
+    p1_reps = all_reps[:n_p1]
+    sess_reps = all_reps[n_p1 : n_p1 + len(sessions)]
+    codec_reps = all_reps[n_p1 + len(sessions) : n_p1 + len(sessions) + len(codec_cfgs)]
+    slash_reps = all_reps[-1]
     ctxs: list[Ctx | None] = []
     coq_cases: list[tuple[str, str]] = []  # (label, text)
     n_viol = 0
@@ -965,6 +1297,77 @@ def _check_body(run: Run, rng, root: Path, thorough: bool, n_drivers: int, proof
             run.broken_correspondence.append(f"{nm}: {pb}")
         coq_cases.append((f"{nm}/clean", text))
 
+    # ---- sessions: ONE Cache object for several runs in one process -----------------------------
+    scases: list[tuple[str, str]] = []
+    for gi, (sess, reps) in enumerate(zip(sessions, sess_reps)):
+        bad, runs_rep = judge_session(sess, reps)
+        dist["sessions (one Cache object, several runs)"] = dist.get("sessions (one Cache object, several runs)", 0) + 1
+        dist["session runs"] = dist.get("session runs", 0) + len(sess["runs"])
+        run.count_case(("session", sess["name"], json.dumps(sess["runs"], sort_keys=True)), nontrivial=len(sess["runs"]) >= 2)
+        if bad:
+            n_viol += 1
+            if n_viol <= 4:
+                run.violation(f"{sess['name']}: {bad}", {"kind": "session", "session": sess})
+        if runs_rep is not None:
+            try:
+                scases.append((sess["name"], coq_scase(sess, runs_rep)))
+            except Exception as e:  # noqa: BLE001
+                run.broken_correspondence.append(f"session {sess['name']}: cannot encode the observation for the model: {type(e).__name__}: {e}")
+        elif not bad:
+            run.note(f"session {sess['name']}: the uncached run differs from an independent evaluation of fn; no verdict")
+    if sessions:
+        run.sample({"session": sessions[0], "runs": [{k: r.get(k) for k in ("status", "calls")} | {"files": sorted(r.get("files", {}))}
+                                                     for r in ((sess_reps[0][1].get("result") or {}).get("value") or []) if isinstance(r, dict)]})
+
+    # ---- custom (name_fn, save_fn, load_fn) triples ---------------------------------------------
+    handed: list[str] = []
+    np_scs = [scenario(c, "second-newproc", root / f"codec-{i}" / "cache", root / f"codec-{i}", codec=c["codec"]) for i, c in enumerate(codec_cfgs)]
+    try:
+        np_codec = run_driver(np_scs, root, "codec-newproc", hashseed="4242") if np_scs else []
+    except Exception as e:  # noqa: BLE001
+        run.broken_correspondence.append(f"new-interpreter rerun driver (custom triples) failed: {type(e).__name__}: {e}")
+        np_codec = [None] * len(np_scs)
+    for gi, (cfg, reps) in enumerate(zip(codec_cfgs, codec_reps)):
+        reps = list(reps) + ([np_codec[gi]] if np_codec[gi] is not None else [])
+        bad, obs = judge_codec(cfg, reps, str(root / f"codec-{gi}" / "cache"))
+        handed += obs
+        dist["custom-triple groups"] = dist.get("custom-triple groups", 0) + 1
+        run.count_case(("codec", cfg["name"], json.dumps(cfg["items"], sort_keys=True)), nontrivial=True)
+        if bad:
+            n_viol += 1
+            if n_viol <= 4:
+                run.violation(f"{cfg['name']}: {bad}", {"kind": "codec", "config": cfg})
+
+    # ---- keys with a path separator in their printed form ----------------------------------------
+    if not slash_repaired:
+        s_ok, s_detail = slash_reproduces(slash_reps)
+        run.count_case(("slash", "witness"), nontrivial=True)
+        fr = slash_reps[1].get("result") or {}
+        if s_ok and fr.get("status") == "raised" and fr.get("exc") == "FileNotFoundError":
+            # the recorded shape: the save into a sub-directory that does not exist
+            if SLASH_FID not in known:
+                run.note(f"keys with '/' cannot be cached but known_findings.json has no entry {SLASH_FID} (run tools/mkmanifest.py)")
+            run.known(SLASH_FID, f"str keys 'ATP/ADP', ('x/y', 1), '/abs', '../up': {s_detail}")
+        else:
+            # any OTHER behaviour on these keys is judged like every configuration (e.g. a name function that
+            # maps '/' to something another key already uses)
+            if SLASH_FID in known:
+                run.note(f"known finding {SLASH_FID} no longer reproduces in its recorded form ({s_detail}): if fixes/C19-slash-in-key.diff was applied run tools/c19_switch.py slash repaired <commit>")
+            s_scs = phase1_group(SLASH_CFG, root, 998)
+            s_ctx = Ctx(SLASH_CFG, slash_reps[0], slash_reps[1])
+            if s_ctx.unc_value is not None:
+                for rep, nm in zip(slash_reps[1:], ("cached run over a fresh directory", "repeated run", "repeated run in the other execution mode")):
+                    bad = s_ctx.result_ok(rep)
+                    if bad:
+                        violation(f"{SLASH_CFG['name']}: {nm}: {bad}", SLASH_CFG, s_scs, {"mode": "transparency"})
+                        break
+                    want_calls = len(s_ctx.keys) if rep["id"] == "fresh" else 0
+                    if len(rep["calls"]) != want_calls:
+                        violation(f"{SLASH_CFG['name']}: {nm} made {len(rep['calls'])} evaluations, expected {want_calls}", SLASH_CFG, s_scs, {"mode": "transparency"})
+                        break
+    elif SLASH_FID in known:
+        run.note(f"ExpectedFacts.v says NameReprEsc but known_findings.json still lists {SLASH_FID} (run tools/c19_switch.py slash repaired <commit>)")
+
     # ---- known finding: two keys with the same file name ---------------------------------------
     col_reps = p1_reps[-1]
     rep_ok, detail = collision_reproduces(col_reps)
@@ -1029,8 +1432,24 @@ def _check_body(run: Run, rng, root: Path, thorough: bool, n_drivers: int, proof
     nkeys = list(name_cases)
     if nkeys:
         files["c19names"] = names_file([name_cases[k] for k in nkeys])
+    if scases:
+        files["c19sessions"] = scorr_file([t for _, t in scases])
+    if handed:
+        files["c19codec"] = codec_corr_file(handed)
     res = common.coq_eval_many(AREA, files, timeout_s=600)
     mism = 0
+    for fname, label, items in (("c19sessions", "session", [n for n, _ in scases]), ("c19codec", "name handed to a custom save_fn, save event", handed)):
+        if fname not in files:
+            continue
+        ok, out = res[fname]
+        lists = common.parse_eval_list(out) if ok else None
+        if not ok or not lists:
+            run.broken_correspondence.append(f"correspondence file {fname} did not evaluate: {out[-300:]}")
+        else:
+            for j in lists[-1][:5]:
+                run.broken_correspondence.append(f"model/implementation disagree on {label} #{j} ({items[j]})")
+            run.coverage[f"{fname}_validated_against_impl"] = len(items) - len(lists[-1])
+        del files[fname]
     if nkeys:
         ok, out = res["c19names"]
         lists = common.parse_eval_list(out) if ok else None
@@ -1068,12 +1487,37 @@ def _strip(sc: dict) -> dict:
 
 def replay(rep: dict) -> int:
     r = rep.get("replay", {})
-    if r.get("kind") != "group":
+    if r.get("kind") not in ("group", "session", "codec"):
         print("nothing to replay:", rep.get("what"))
         return 1
-    cfg = r["config"]
     NAME_MODE[0] = expected_name_kind()
     root = common.scratch_dir("c19replay")
+    if r["kind"] == "session":
+        try:
+            sess = r["session"]
+            reps = run_driver(session_group(sess, root, 0), root, "rs")
+            bad, runs_rep = judge_session(sess, reps)
+            for i, rr in enumerate(runs_rep or []):
+                print(f"run #{i}: parallel={sess['runs'][i]['parallel']} keys={len(sess['runs'][i]['items'])} status={rr.get('status')} "
+                      f"evaluated={sorted(rr.get('calls', []))} files={sorted(rr.get('files', {}))}")
+            print("oracle:", f"property VIOLATED on this input: {bad}" if bad else "property holds on this input")
+            return 1 if bad else 0
+        finally:
+            shutil.rmtree(root, ignore_errors=True)
+    if r["kind"] == "codec":
+        try:
+            cfg = r["config"]
+            reps = run_driver(codec_group(cfg, root, 0), root, "rc")
+            reps.append(run_driver([scenario(cfg, "second-newproc", root / "codec-0" / "cache", root / "codec-0", codec=cfg["codec"])], root, "rc2", hashseed="4242")[0])
+            bad, obs = judge_codec(cfg, reps, str(root / "codec-0" / "cache"))
+            for rp in reps:
+                print(f"stage {rp['id']}: result={json.dumps(rp.get('result'))[:200]} calls={len(rp['calls'])} files={sorted(rp['files'])} "
+                      f"handed={[(e['op'], e['name']) for e in rp.get('rec', [])][:6]}")
+            print("oracle:", f"property VIOLATED on this input: {bad}" if bad else "property holds on this input")
+            return 1 if bad else 0
+        finally:
+            shutil.rmtree(root, ignore_errors=True)
+    cfg = r["config"]
     try:
         base = phase1_group(cfg, root, 0)
         reps1 = run_driver(base, root, "r1")
